@@ -88,7 +88,7 @@ def oracle(case, ctx):
             raise AssertionError("evaluate(return_data=True) failed: %r" % (rd,))
         raw = raw_metric(case["metric"])
         raw_mean = float(np.mean([raw(a, b) for a, b in zip(rd["y_test"], rd["y_pred"])]))
-        if not np.isclose(raw_mean, float(r[col].mean()), rtol=1e-9, atol=1e-300):
+        if not np.isclose(raw_mean, float(r[col].mean()), rtol=1e-9, atol=1e-300, equal_nan=True):
             return [D("score_is_not_the_metric_function:%s" % ("greater_is_better" if gib else "loss"),
                       "%s candidate %s: evaluate reports %r, the metric function gives %r" % (case["metric"], p, float(r[col].mean()), raw_mean))]
         exp_scores.append(float(r[col].mean()))
@@ -99,6 +99,12 @@ def oracle(case, ctx):
     ctx.label(case["search"])
     ctx.label("greater_is_better" if gib else "loss")
     ctx.label("refit" if case["refit"] else "no_refit")
+    if all(np.isnan(v) for v in exp_scores):
+        # no candidate has a defined score: nothing the property pins down
+        ctx.mark_rejected()
+        return []
+    if any(np.isnan(v) for v in exp_scores):
+        ctx.label("some_candidate_scores_undefined")
     distinct = len(set(np.round(exp_scores, 12))) == len(exp_scores)
     ctx.mark_nontrivial(len(cands) >= 3 and distinct)
     if isinstance(r, Raised):
@@ -124,11 +130,11 @@ def oracle(case, ctx):
     if rcol in res.columns:
         want_rank = pd.Series(exp_scores).rank(ascending=not gib).tolist()
         got_rank = [float(v) for v in res[rcol].tolist()]
-        if got_rank != want_rank:
+        if not np.array_equal(np.array(got_rank), np.array(want_rank), equal_nan=True):
             discs.append(D("rank_column_not_order_of_scores:%s" % ("greater_is_better" if gib else "loss"),
                            "scores %s ranks %s expected %s" % (exp_scores, got_rank, want_rank)))
             return discs
-    best = max(exp_scores) if gib else min(exp_scores)
+    best = np.nanmax(exp_scores) if gib else np.nanmin(exp_scores)  # an undefined score is never the best
     tied = [i for i, s in enumerate(exp_scores) if np.isclose(s, best, rtol=1e-12, atol=0)]
     bi = sut(lambda: int(tuner.best_index_))
     if isinstance(bi, Raised) or bi not in tied:
@@ -232,7 +238,7 @@ def cases(draw):
         "n_iter": draw(st.integers(1, 6)), "rs": draw(st.integers(0, 10 ** 6)),
         "values": draw(gen.series_values(n, n, lo=5.0, hi=300.0)),
         "start": draw(gen.index_start), "index_kind": draw(gen.index_kind),
-        "metric": draw(st.sampled_from(["smape", "mape_asym", "mse", "mse", "ratio", "ratio"])),
+        "metric": draw(st.sampled_from(["smape", "mape_asym", "mse", "mse", "ratio", "ratio", "nanflat"])),
         "refit": draw(st.sampled_from([True, True, False])),
         "strategy": draw(st.sampled_from(["refit", "refit", "update"])),
         "scale": draw(st.sampled_from([1.0, 1.0, 1e-6, 1e-4, 1e-3, 1e4])),
